@@ -15,6 +15,18 @@ import torch.nn.functional as F
 MODULE_OPS = ('conv', 'dw', 'lin', 'bn', 'pad', 'pool', 'flatm', 'gap')
 
 
+class Prog(list):
+    """SSA program; `extra_out`: a second tensor the network returns (forward returns a tuple)."""
+    extra_out = None
+
+
+def merge_out(y):
+    """The value(s) a network returns as one 2-D tensor (a tuple is flattened and concatenated)."""
+    if isinstance(y, (tuple, list)):
+        return torch.cat([t.flatten(1) for t in y], 1)
+    return y
+
+
 class GNet(nn.Module):
     """Interpreter of an SSA program; node i holds its module (if any) as attribute n<i>."""
 
@@ -54,6 +66,8 @@ class GNet(nn.Module):
             v.append(r)
             if record is not None:
                 record.append(tuple(r.shape))
+        if getattr(self.prog, 'extra_out', None) is not None:
+            return v[-1], v[self.prog.extra_out]
         return v[-1]
 
 
@@ -70,7 +84,7 @@ class GNet2(GNet):
 class Builder:
     def __init__(self, rng, dim, opts):
         self.rng, self.dim, self.o = rng, dim, opts
-        self.prog, self.ch, self.sp, self.taint = [], [], [], []
+        self.prog, self.ch, self.sp, self.taint = Prog(), [], [], []
 
     def add(self, ins, c, s):
         self.prog.append(ins)
@@ -313,6 +327,11 @@ def gen_program(rng, dim, opts=None):
         other = b.add(('lin', f, nn.Linear(feat, rng.choice([2, 3]))), 0, 1)
         other = b.add(('relu', other), 0, 1) if rng.random() < .5 else other
         b.add(('cat', [last, other]), 0, 1)
+    if o.get('two_outputs'):
+        # forward returns a tuple: the logits and an intermediate activation (which must then keep its full width)
+        cands = [j for j in range(len(b.prog) - 1) if b.prog[j][0] in ('relu', 'pool', 'add', 'cat')]
+        if cands:
+            b.prog.extra_out = rng.choice(cands)
     return b.prog, ([shape, shape1] if two else [shape])
 
 
@@ -446,11 +465,15 @@ def render(prog, shapes_rec, excl, layer_info):
         else:
             raise ValueError(op)
     out.append('output %d' % (len(prog) - 1))
+    if getattr(prog, 'extra_out', None) is not None:
+        out.append('output %d' % prog.extra_out)
     return ';'.join(out)
 
 
 def prog_summary(prog):
-    return [ins[0] + (str(list(ins[1])) if ins[0] in ('cat', 'tcat') else '') for ins in prog]
+    """One token per node (index-aligned with the program); a trailing `also-returns:<n>` for a second output."""
+    return [ins[0] + (str(list(ins[1])) if ins[0] in ('cat', 'tcat') else '') for ins in prog] + \
+        ([] if getattr(prog, 'extra_out', None) is None else ['also-returns:%d' % prog.extra_out])
 
 
 ALPHA_PALETTE = [0, 1, 2, 3, 4, 5, 6, 8, 12, -3, -6, 4, 8]   # eighths
